@@ -184,9 +184,9 @@ def member_boundary_shifted(s, r):
     if v == "type-tail-to-challenge":
         s.cd_type, s.sign_challenge = s.cd_type[:-1], s.cd_type[-1:].encode() + ch
     elif v == "challenge-tail-from-origin":
-        s.sign_challenge, s.origin = ch + exp_origin[:5].encode(), exp_origin[5:]
+        s.sign_challenge, s.origin = ch + exp_origin[:5].encode("utf-8", "surrogatepass"), exp_origin[5:]
     elif v == "origin-head-to-challenge-2":
-        s.sign_challenge, s.origin = ch + exp_origin[:8].encode(), exp_origin[8:]
+        s.sign_challenge, s.origin = ch + exp_origin[:8].encode("utf-8", "surrogatepass"), exp_origin[8:]
     else:
         s.cd_type, s.sign_challenge = s.cd_type + ch[:1].decode("latin-1"), ch[1:]
 def f_challenge_b64_alias(s, r):
